@@ -6,6 +6,7 @@ import numpy as np
 from hypothesis import strategies as st
 
 from .. import gen, infer, series
+from .. import core
 from ..core import call, drive
 from ..nnls_kkt import kkt_report, objective, reference_nnls
 from ..realise import make_frame
@@ -107,11 +108,14 @@ def check_case(p, ctx):
     if p["rhs"] == "velocity":
         R1 = realise(t, nint, lab)
         ext = t.extent()
+        moved_by = {}
         for vid, v in R1.vertices.items():
             if R1.tok_of_vid[vid][0] == "J":
                 d = rng.normal(size=2) * 0.004 * ext
+                x0_, y0_ = v.x, v.y
                 v.x += float(d[0])
                 v.y += float(d[1])
+                moved_by[vid] = (v.x - x0_, v.y - y0_)
         frames[1] = make_frame(R1, 1, time=1.0)
     fsys = call(fs.ForSys, frames, cm=False)
     internal_paths = [list(e) for e in f0.internal_big_edges_vertices]
@@ -257,6 +261,18 @@ def check_case(p, ctx):
     if rec is None:
         raise RuntimeError("hook record missing")
     b_top, _ = call(fm.set_velocity_matrix, fsys.mesh, **{k: v for k, v in kw.items() if k == "b_matrix"})
+    if p["rhs"] == "velocity":
+        # the velocity term of every remaining junction, flagged or not, is that junction's own finite difference
+        # (same numbering in both frames, elapsed time 1)
+        mp = core.mesh_of(fsys).mapping.get(0) or {}
+        bt = np.asarray(b_top, float).flatten()
+        if all(mp.get(vid) == vid for vid in rows_now):
+            for vid, r0 in rows_now.items():
+                ex, ey = moved_by[vid]
+                if abs(bt[r0] - ex) > 1e-9 * ext + 1e-12 or abs(bt[r0 + 1] - ey) > 1e-9 * ext + 1e-12:
+                    return ctx.violation("velocity-term-of-remaining-junction", p, observed=[float(bt[r0]), float(bt[r0 + 1])],
+                                         expected=[ex, ey], detail={"flagged": bool(flagged.get(vid))})
+            ctx.count("velocity-terms-checked-against-displacements")
     M_exp, b_exp = infer.augment(A, np.asarray(b_top, float).flatten())
     b_exp = b_exp.round(3)
     if rec["mprime"].shape != M_exp.shape or np.max(np.abs(rec["mprime"] - M_exp)) > 1e-12 or \
